@@ -1,5 +1,6 @@
 /-
-  Z80.Model.Run — histories: what a host program can do to a CPU between steps.  Import-free.
+  Z80.Model.Run — histories: everything a host program can do to a CPU object between steps
+  (the whole public API of the crate).  Import-free.
 -/
 import Z80.Model.Step
 namespace Z80
@@ -12,9 +13,32 @@ inductive Event
   | writeByte (a : UInt16) (v : UInt8)    -- `bus.write_byte`
   | writeWord (a : UInt16) (w : UInt16)   -- `bus.write_word`
   | setRom (s : UInt16) (e : UInt16)      -- `bus.set_romspace` (a new declaration replaces the old one)
+  | load (file : Option (List UInt8)) (org : UInt16)   -- `bus.load_bin` (`none`: the file cannot be opened)
+  | clear (s e : Nat)                     -- `bus.clear_mem_slice`
+  | observe                               -- the read accessors, `read_mem_slice`, `dasm`, `flags()`: no effect
+  | setFreq (n8 : UInt32)                 -- `set_freq(n8 / 8 MHz)` on the grid of `Cpu.setFreqEighths`
+  | setSliceDuration (d : UInt32)         -- `set_slice_duration`
+  | hostReg (which : Nat) (v : UInt16)    -- the host assigns `c.reg.*` (0 BC 1 DE 2 HL 3 IX 4 IY 5 SP 6 PC, else AF)
 deriving DecidableEq, Repr, Inhabited
 
 def Cpu.withBus (c : Cpu) (b : Bus) : Cpu := { c with arch := { c.arch with bus := b } }
+
+def Regs.hostSet (r : Regs) (which : Nat) (v : UInt16) : Regs :=
+  match which with
+  | 0 => r.setBC v | 1 => r.setDE v | 2 => r.setHL v | 3 => r.setIX v | 4 => r.setIY v
+  | 5 => { r with sp := v } | 6 => { r with pc := v } | _ => r.setAF v
+
+/-- `load_bin` on the CPU's bus: a file that cannot be opened (error value) and a request the real code
+    aborts on (`none`) both leave the object as it was -/
+def Cpu.loadBin (c : Cpu) (file : Option (List UInt8)) (org : UInt16) : Cpu :=
+  match c.arch.bus.loadBin file org with
+  | some (.ok (b, _)) => c.withBus b
+  | _ => c
+
+def Cpu.clearSlice (c : Cpu) (s e : Nat) : Cpu :=
+  match c.arch.bus.clearMemSlice s e with
+  | some b => c.withBus b
+  | none => c
 
 def runEvent (c : Cpu) : Event → Cpu
   | .step => (step c).1
@@ -24,9 +48,19 @@ def runEvent (c : Cpu) : Event → Cpu
   | .writeByte a v => c.withBus (c.arch.bus.writeByte a v)
   | .writeWord a w => c.withBus (c.arch.bus.writeWord a w)
   | .setRom s e => c.withBus (c.arch.bus.setRomspace s e)
+  | .load file org => c.loadBin file org
+  | .clear s e => c.clearSlice s e
+  | .observe => c
+  | .setFreq n8 => c.setFreqEighths n8
+  | .setSliceDuration d => c.setSliceDuration d
+  | .hostReg which v => { c with arch := { c.arch with reg := c.arch.reg.hostSet which v } }
 
 /-- does the history (re)declare the ROM range? -/
 def Event.isSetRom : Event → Bool | .setRom _ _ => true | _ => false
+
+/-- the host utilities that overwrite memory wholesale, ROM included (`load_bin` is how a ROM image gets there):
+    C07 speaks about what the CPU executes and about byte/word writes, not about these -/
+def Event.overwrites : Event → Bool | .load _ _ => true | .clear _ _ => true | _ => false
 
 def run (c : Cpu) (es : List Event) : Cpu := es.foldl runEvent c
 
